@@ -416,6 +416,33 @@ func (c c07) Generate(e *Env) ([]*Case, error) {
 				add(c07Params{Prog: prog, Dirs: ds})
 			}
 		}
+		// 4b. one entry file damaged AND the garbled part of GOCACHE lost, no edit: the
+		// packages are recompiled under their unchanged garble action IDs, so every
+		// writer meets a half-present entry (index without data or the reverse).
+		var fam []c07Fault
+		for _, r := range roles {
+			for _, m := range []string{"delete", "empty", "trunchalf"} {
+				fam = append(fam, c07Fault{r, m})
+			}
+		}
+		rng.Shuffle(len(fam), func(i, j int) { fam[i], fam[j] = fam[j], fam[i] })
+		nf := pick(len(fam), 5)
+		if !thorough && pi > 0 {
+			// prefer the assembly name-map entries of the second program
+			var asm, rest []c07Fault
+			for _, f := range fam {
+				if strings.Contains(f.Role, "|asm|") {
+					asm = append(asm, f)
+				} else {
+					rest = append(rest, f)
+				}
+			}
+			fam = append(asm, rest...)
+			nf = min(4, len(fam))
+		}
+		for _, f := range fam[:nf] {
+			add(c07Params{Prog: prog, Faults: []c07Fault{f}, Dirs: []string{"gocache-new"}})
+		}
 		// 5. seeded samples: std entries, GOCACHE files, multi-fault sets at -p 4, mid-build faults.
 		nS := 3 - pi
 		if thorough {
